@@ -60,7 +60,7 @@ func (x *Exec) fsWrite(s *State, site ssa.Instruction, path, text *Term, what st
 func (x *Exec) fileHandle(s *State, site ssa.Instruction, t types.Type, path *Term, nilT *Term) *PtrV {
 	elem := t.(*types.Pointer).Elem()
 	o := x.E.newObject(x.siteTag(site)+":file", elem)
-	s.heap[o.id] = &AbsV{Typ: elem, F: map[string]Val{"path": path}}
+	s.heap[o.id] = &AbsV{Typ: elem, F: map[string]Val{"path": path, "pos": Str("start")}}
 	return &PtrV{Nil: nilT, Obj: o, Elem: elem}
 }
 
@@ -139,6 +139,41 @@ func (x *Exec) libFS(s *State, site ssa.Instruction, fn *ssa.Function, name stri
 		s.assume(Implies(Not(e.Nil), And(StrPrefixOf(written, text), Lt(StrLen(written), StrLen(text)))))
 		x.fsWrite(s, site, path, written, name)
 		k(s, &TupleV{E: []Val{StrLen(written), e}})
+		return true
+	case "(*os.File).Seek":
+		x.used(name + ": Seek(0, io.SeekEnd) positions the handle at the end of the file")
+		x.recvNonNil(s, site, args[0], name)
+		e := x.freshErr(s, site, "seek.err")
+		off, wh := args[1].(*Term), args[2].(*Term)
+		cur := x.absGet(s, args[0], "pos")
+		np := Ite(And(e.Nil, Eq(off, Int(0)), Eq(wh, Int(2))), Str("end"), Ite(And(e.Nil, Eq(wh, Int(1)), Eq(off, Int(0))), cur, Ite(e.Nil, Str("other"), cur)))
+		x.absSet(s, args[0], "pos", np)
+		k(s, &TupleV{E: []Val{x.freshInt(s, site, "offset"), e}})
+		return true
+	case "bufio.NewReader":
+		x.used(name + ": the reader's source is the gzip decoder, the zstd decoder or the file itself")
+		elem := res.At(0).Type().(*types.Pointer).Elem()
+		o := x.E.newObject(x.siteTag(site)+":bufr", elem)
+		src := x.freshStr(s, site, "src")
+		if iv, ok := args[0].(*IfaceV); ok && iv.Dyn != nil {
+			switch typeName(iv.Dyn) {
+			case "*gzip.Reader":
+				src = Str("gzip")
+			case "*os.File":
+				src = Str("raw")
+			}
+		} else if iv, ok := args[0].(*IfaceV); ok && iv.Opaque != nil {
+			// a reader obtained from a decompressor constructor
+			src = UF("ufs_reader_kind", SString, iv.Opaque)
+		}
+		s.heap[o.id] = &AbsV{Typ: elem, F: map[string]Val{"src": src}}
+		k(s, &PtrV{Nil: TFalse, Obj: o, Elem: elem})
+		return true
+	case "github.com/DataDog/zstd.NewReader":
+		x.used(name + ": zstd decoder over the file")
+		id := x.freshInt(s, site, "zstd$id")
+		s.assume(Eq(UF("ufs_reader_kind", SString, id), Str("zstd")))
+		k(s, &IfaceV{Nil: TFalse, Opaque: id, Typ: res.At(0).Type()})
 		return true
 	case "(*os.File).Close", "(*os.File).Sync":
 		x.used(name)
